@@ -852,7 +852,9 @@ class ExcelCompiler:
                 bounded_addr = str(self.eval(cell_range))
                 bounded_addr_cell = self.cell_map.get(bounded_addr)
                 if isinstance(bounded_addr_cell, _CellRange):
-                    if bounded_addr_cell.value is None:
+                    if bounded_addr_cell.value is None or self.cycles:
+                        # iterative mode: the range referred to is read
+                        # again like any other range (it was cached forever)
                         self._evaluate_range(bounded_addr)
                     data = bounded_addr_cell.value
                 else:
